@@ -44,7 +44,12 @@ var families = []family{
 	{"wfail", "shared | beginW 2 ; access 2 0 ; put 2 0 7 ; rollback 2 ; finish 2 ; beginR 1 ; access 1 0 ; read 1 0 7 ; leave 1 0 ; end 1 ; beginR 3 ; access 3 0 ; read 3 0 7 ; leave 3 0 ; end 3 | R=1 R2=3", true, "R=ok R2=ok"},
 	{"w2b", "shared pre 7 | beginR 1 ; beginW 2 ; access 2 0 ; del 2 0 7 ; commit 2 ; finish 2 ; access 1 0 ; read 1 0 7 ; leave 1 0 ; backfill 1 7 ; end 1 ; beginR 3 ; access 3 0 ; read 3 0 7 ; leave 3 0 ; backfill 3 7 ; end 3 | R=1 R2=3", true, "R=ok R2=u2"},
 	{"w2b/private", "private pre 7 | beginR 1 ; beginW 2 ; access 2 0 ; del 2 0 7 ; commit 2 ; finish 2 ; access 1 0 ; read 1 0 7 ; leave 1 0 ; backfill 1 7 ; end 1 ; beginR 3 ; access 3 0 ; read 3 0 7 ; leave 3 0 ; end 3 | R=1 R2=3", true, "R=ok R2=ok"},
-	{"w2d", "shared pre 7 | beginR 1 ; beginW 2 ; access 2 0 ; del 2 0 7 ; put 2 0 2 ; commit 2 ; finish 2 ; access 1 0 ; read 1 0 2 ; leave 1 0 ; end 1 ; beginR 3 ; access 3 0 ; read 3 0 2 ; leave 3 0 ; end 3 | R=1 R2=3", true, "R=u3 R2=ok"},
+	// w2d: whether the old-snapshot reader meets the rewritten node in the shared graph cache (answers the new
+	// committed state: class u3, allowed by the property) or reads every node it visits from its own snapshot
+	// (class ok) depends on what the cache happens to hold; both occur on real machines. The family is therefore
+	// still executed and judged by the oracle (a crash, a spurious failure, a point that was never committed are
+	// failures) but its thread classes are not compared with the model's prediction.
+	{"w2d", "shared pre 7 | beginR 1 ; beginW 2 ; access 2 0 ; del 2 0 7 ; put 2 0 2 ; commit 2 ; finish 2 ; access 1 0 ; read 1 0 2 ; leave 1 0 ; end 1 ; beginR 3 ; access 3 0 ; read 3 0 2 ; leave 3 0 ; end 3 | R=1 R2=3", false, "R=u3 R2=ok"},
 	// quiescent: a writer (several batches in reality: a delete-heavy history on a sparse part of the graph; here: one
 	// transaction that deletes two items and rewrites the entry node) finishes before the first search begins
 	{"quiesce", "shared pre 7 8 | beginW 2 ; access 2 0 ; del 2 0 7 ; del 2 0 8 ; put 2 0 1 ; commit 2 ; finish 2 ; beginR 1 ; access 1 0 ; read 1 0 1 ; read 1 0 2 ; leave 1 0 ; end 1 ; beginR 3 ; access 3 0 ; read 3 0 1 ; read 3 0 3 ; leave 3 0 ; end 3 | R=1 R2=3", true, "R=ok R2=ok"},
